@@ -136,9 +136,11 @@ def _actor(src: str) -> list[str]:
     # _run_loop
     rl = _fn(actor, "_run_loop")
     body = _strip(rl.body)
-    if not (len(body) == 2 and ast.unparse(body[0]) == "n_restarts = 0" and isinstance(body[1], ast.While)
-            and ast.unparse(body[1].test) == "True"):
-        raise Bad("_run_loop: expected `n_restarts = 0; while True:`")
+    if not (len(body) == 2 and isinstance(body[0], ast.Assign) and len(body[0].targets) == 1
+            and isinstance(body[0].targets[0], ast.Name) and ast.unparse(body[0].value) == "0"
+            and isinstance(body[1], ast.While) and ast.unparse(body[1].test) == "True"):
+        raise Bad("_run_loop: expected `<counter> = 0; while True:`")
+    ctr = body[0].targets[0].id  # `n_restarts` (a local: its name does not matter)
     wbody = _strip(body[1].body)
     if not (len(wbody) == 2 and isinstance(wbody[0], ast.Try)):
         raise Bad("_run_loop: expected `try: … ; <stmt>` in the loop")
@@ -147,7 +149,7 @@ def _actor(src: str) -> list[str]:
         raise Bad(f"_run_loop: statement after the try is {after!r} (expected `break`)")
     tr = wbody[0]
     tb = [ast.unparse(s) for s in _strip(tr.body)]
-    if tb != ["await self._delay_if_restart(n_restarts)", "await self._run()"] or tr.orelse or tr.finalbody:
+    if tb != [f"await self._delay_if_restart({ctr})", "await self._run()"] or tr.orelse or tr.finalbody:
         raise Bad(f"_run_loop: try body is {tb}")
     handlers = []
     allowed = None
@@ -160,10 +162,10 @@ def _actor(src: str) -> list[str]:
         if len(hb) == 1 and ast.unparse(hb[0]) == "raise":
             handlers.append((ty, "reraise"))
         elif (len(hb) == 2 and isinstance(hb[0], ast.If) and not hb[0].orelse and ast.unparse(hb[1]) == "raise"
-              and [ast.unparse(s) for s in _strip(hb[0].body)] == ["n_restarts += 1", "continue"]):
+              and [ast.unparse(s) for s in _strip(hb[0].body)] == [f"{ctr} += 1", "continue"]):
             if allowed is not None:
                 raise Bad("_run_loop: two restarting handlers")
-            allowed = _expr(hb[0].test, {"n_restarts": "n", "self._restart_limit": "limit"})
+            allowed = _expr(hb[0].test, {ctr: "n", "self._restart_limit": "limit"})
             handlers.append((ty, "restartOrReraise"))
         else:
             raise Bad(f"_run_loop: unrecognised handler body for {ty}")
@@ -254,6 +256,11 @@ def _service(src: str) -> list[str]:
         if isinstance(s, ast.If) and not s.orelse and [ast.unparse(x) for x in s.body] == ["self.cancel(msg)"] \
                 and isinstance(s.test, ast.Name):
             round_cancel_flag = s.test.id
+    pre_cancel_flag = None
+    for s in pre:
+        if isinstance(s, ast.If) and not s.orelse and [ast.unparse(x) for x in s.body] == ["self.cancel(msg)"] \
+                and isinstance(s.test, ast.Name):
+            pre_cancel_flag = s.test.id
     # stop()
     sb = _strip(stop.body)
     ssrc = [ast.unparse(s) for s in sb]
@@ -276,13 +283,16 @@ def _service(src: str) -> list[str]:
             pass  # wait() passes no flag: default must be False
     elif helper is not None and callee == f"self.{helper}" and not call.args:
         cancel_rounds = round_cancel_flag is not None and kw.get(round_cancel_flag) == "True"
+        if pre_cancel_flag is not None and kw.get(pre_cancel_flag) == "True":
+            cancel_at_call = True
     else:
         raise Bad(f"stop(): awaits {ast.unparse(call)}")
-    if round_cancel_flag is not None:
+    for flag in {round_cancel_flag, pre_cancel_flag} - {None}:
+        round_cancel_flag_ = flag
         # the flag must default to False so that wait() never cancels
         args = loop_fn.args
         names = [a.arg for a in args.kwonlyargs]
-        if round_cancel_flag not in names or ast.unparse(args.kw_defaults[names.index(round_cancel_flag)]) != "False":
+        if round_cancel_flag_ not in names or ast.unparse(args.kw_defaults[names.index(round_cancel_flag_)]) != "False":
             raise Bad("round-cancel flag has no `False` default")
     if not cancel_at_call and not cancel_rounds:
         raise Bad("stop(): no cancellation found")
